@@ -73,15 +73,19 @@ def check(run):
             viol[f'FLOAT:{ty}'] = {'rule': 'FLOAT', 'what': f'{ty} parameter written as {lit.decode()} must be delivered as bits {want} (correctly rounded); the real code delivered {calls}',
                                    'input': case['input'], 'device': 'TY', 'want': [ty, str(want)], 'role': f'FLOAT:{ty}:rounding'}
     cov['vacuity']['concrete_float_literals_checked_natively'] = float_checked
-    # translator validation; when the native float stage above already shows a wrong value, an executor that stops at an unknown
-    # construct must not hide it
+    # when the native float stage above already shows a wrong value, an executor that stops at an unknown construct (in the translator
+    # validation or in an exploration) must not hide it
     try:
-        run.validate_translator(0 if thorough else 600)
+        return _symbolic_part(run, thorough, cov, viol)
     except Inconclusive as e:
         if not viol:
             raise
-        run.log(f'[C03] translator validation stopped ({str(e)[:120]}); the natively observed float violations are reported')
+        run.log(f'[C03] symbolic part stopped ({str(e)[:120]}); the natively observed float violations are reported')
         return {'violations': [dict(v, property='C03') for _, v in sorted(viol.items())], 'exhaustive': False}
+
+
+def _symbolic_part(run, thorough, cov, viol):
+    run.validate_translator(0 if thorough else 600)
     st = run.explore('twin (every delivered value declared wrong)', ARG + ({'handler': 'PU8', 'L': 3, 'twin': True},), 300)
     tv = sum(1 for r in st['records'] if r.get('violations'))
     cov['vacuity']['twin_violations'] = tv
